@@ -151,6 +151,7 @@ type runner struct {
 	waited            chan struct{}
 	waitErr           error
 
+	setUp   map[int]bool
 	desc    *description.Session // from Describe
 	recDesc *description.Session // announced
 	rt      time.Duration
@@ -339,7 +340,7 @@ func runScript(sc *Script) *Outcome {
 	if rt == 0 {
 		rt = 400 * time.Millisecond
 	}
-	r := &runner{sc: sc, srv: srv, out: out, rt: rt, waited: make(chan struct{})}
+	r := &runner{sc: sc, srv: srv, out: out, rt: rt, waited: make(chan struct{}), setUp: map[int]bool{}}
 	srv.onAccept = func() {
 		r.baseResp.Store(r.seenResp.Load())
 		r.baseReq.Store(r.seenReq.Load())
@@ -445,9 +446,15 @@ func runScript(sc *Script) *Outcome {
 			c.OnPacketRTPAny(func(*description.Media, format.Format, *rtp.Packet) {})
 			c.OnPacketRTCPAny(func(*description.Media, rtcp.Packet) {})
 		}
-		if sc.Frames && call.Api == "record" && co.err == nil && r.recDesc != nil {
+		if call.Api == "setup" && co.err == nil {
+			r.setUp[call.Media] = true
+		}
+		if sc.Frames && call.Api == "record" && co.err == nil && r.recDesc != nil && !r.isClosed() {
 			for sq := range 5 {
-				for _, m := range r.recDesc.Medias {
+				for mi, m := range r.recDesc.Medias {
+					if !r.setUp[mi] {
+						continue // writing to a media that is not set up is the caller's error
+					}
 					c.WritePacketRTP(m, &rtp.Packet{ //nolint:errcheck
 						Header:  rtp.Header{Version: 2, PayloadType: m.Formats[0].PayloadType(), SequenceNumber: uint16(sq), Timestamp: uint32(sq * 3000)},
 						Payload: []byte{1, 2, 3, 4},
